@@ -60,6 +60,7 @@ static void vf_begin(void) {
     if (!init) {
         init = 1;
         vf_counters_path = getenv("VF_COUNTERS");
+        if (vf_counters_path && !vf_counters_path[0]) vf_counters_path = NULL;
         vf_bitmap = (unsigned char *)calloc(VF_BITMAP_BITS / 8, 1);
         atexit(vf_flush);
     }
